@@ -44,6 +44,7 @@ def run(ctx, res):
     msm.rule_guards(prog, engine.Filtered(res, {"M-guards"}))
     import textrules
     textrules.rule_utf8_writers(prog, res)
+    textrules.rule_capacity(prog, engine.Filtered(res, {"X-cap", "X-utf8"}))
     panics.check_residue_support(inv, res)
     if ctx.tier == "thorough":
         import crosscfg
